@@ -762,26 +762,95 @@ def READ_OPTS_PLAIN(o: dict) -> bool:
 
 
 
-# ------------------------------------------------------------------ data generation (C20), leaf part
+# ------------------------------------------------------------------ data generation (C20)
 @spec
-def LEAFY(s: object, ns: dict) -> bool:
-    """schemas built from primitives, fixed, enum, non-empty unions of such, and references to such
-    (no arrays, maps or records): the part of gen_data that is under contract"""
+def GENOK(s: object, ns: dict) -> bool:
+    """the schemas for which gen_data is under contract: every schema without logical types whose unions are
+    non-empty and whose records have pairwise distinct field names"""
     t = TYPE(s)
     if t == "null" or t == "boolean" or t == "int" or t == "long" or t == "float" \
             or t == "double" or t == "bytes" or t == "string":
         return True
     if isinstance(s, list):
-        return len(s) >= 1 and LEAFY_ALL(s, ns, 0)
+        return len(s) >= 1 and GENOK_ALL(s, ns, 0)
     if isinstance(s, dict):
+        if t == "array":
+            return GENOK(s["items"], ns)
+        if t == "map":
+            return GENOK(s["values"], ns)
+        if t == "record":
+            # field names are pairwise distinct and none is the hint key "-type" (both hold for every schema the
+            # parser accepts: names are identifiers, duplicate field names are rejected)
+            return DISTINCT_FROM(s["fields"], 0) and NOT_AMONG(s["fields"], "-type", len(s["fields"])) \
+                and GENOK_FIELDS(s["fields"], ns, 0)
         return t == "fixed" or t == "enum"
     if isinstance(s, str) and s in ns:
-        return LEAFY(ns[s], ns)
+        return GENOK(ns[s], ns)
     return False
 
 
 @spec
-def LEAFY_ALL(u: list, ns: dict, k: int) -> bool:
+def GENOK_ALL(u: list, ns: dict, k: int) -> bool:
     if k >= len(u):
         return True
-    return LEAFY(u[k], ns) and LEAFY_ALL(u, ns, k + 1)
+    return GENOK(u[k], ns) and GENOK_ALL(u, ns, k + 1)
+
+
+@spec
+def ALL_VALID_R(xs: list, s: object, ns: dict, o: dict, hi: int) -> bool:
+    """the first hi elements of xs validate against s (right unfolding: what a builder has established)"""
+    if hi <= 0:
+        return True
+    return ALL_VALID_R(xs, s, ns, o, hi - 1) and VALID(xs[hi - 1], s, ns, o)
+
+
+@spec
+def ALL_STR_R(xs: list, hi: int) -> bool:
+    """the first hi elements of xs are strings"""
+    if hi <= 0:
+        return True
+    return ALL_STR_R(xs, hi - 1) and isinstance(xs[hi - 1], str)
+
+
+@spec
+def GENOK_FIELDS(fs: list, ns: dict, k: int) -> bool:
+    if k >= len(fs):
+        return True
+    return GENOK(fs[k]["type"], ns) and GENOK_FIELDS(fs, ns, k + 1)
+
+
+@spec
+def NOT_AMONG(fs: list, x: object, hi: int) -> bool:
+    """x is not the name of any of the fields fs[:hi]"""
+    if hi <= 0:
+        return True
+    return NOT_AMONG(fs, x, hi - 1) and fs[hi - 1]["name"] != x
+
+
+@spec
+def DISTINCT_FROM(fs: list, k: int) -> bool:
+    """every field from k on has a name that no earlier field has"""
+    if k >= len(fs):
+        return True
+    return NOT_AMONG(fs, fs[k]["name"], k) and DISTINCT_FROM(fs, k + 1)
+
+
+@spec
+def REC_R(fs: list, d: dict, ns: dict, o: dict, hi: int) -> bool:
+    """the record under construction: the first hi fields are present with valid values"""
+    if hi <= 0:
+        return True
+    return REC_R(fs, d, ns, o, hi - 1) and fs[hi - 1]["name"] in d \
+        and VALID(d[fs[hi - 1]["name"]], fs[hi - 1]["type"], ns, o)
+
+
+@spec
+def FNAME(fs: list, j: int) -> object:
+    """name of field j (total: unspecified for ill-formed field lists)"""
+    return fs[j]["name"]
+
+
+@spec
+def DVAL(d: dict, k: object) -> object:
+    """d[k] (total: unspecified when absent)"""
+    return d[k]
